@@ -8,6 +8,7 @@ import (
 	"strconv"
 	"strings"
 	"unicode"
+	"unicode/utf8"
 )
 
 // ---------- expression AST ----------
@@ -65,10 +66,14 @@ func lexSpec(src string) ([]tok, error) {
 		switch {
 		case c == ' ' || c == '\t' || c == '\n' || c == '\r':
 			i++
-		case unicode.IsLetter(rune(c)) || c == '_':
+		case isIdentStart(src[i:]):
 			j := i
-			for j < len(src) && (unicode.IsLetter(rune(src[j])) || unicode.IsDigit(rune(src[j])) || src[j] == '_' || src[j] == '$') {
-				j++
+			for j < len(src) {
+				r, sz := utf8.DecodeRuneInString(src[j:])
+				if !(unicode.IsLetter(r) || unicode.IsDigit(r) || r == '_' || r == '$') {
+					break
+				}
+				j += sz
 			}
 			ts = append(ts, tok{"id", src[i:j]})
 			i = j
@@ -426,6 +431,7 @@ func (p *sparser) primary() SExpr {
 // ---------- contract files ----------
 
 type Clause struct {
+	PkgPath string
 	Text string
 	Expr SExpr
 	Line int
@@ -433,6 +439,7 @@ type Clause struct {
 }
 
 type LoopSpec struct {
+	Steps      []*Clause
 	Invariants []*Clause
 	Decreases  *Clause
 	used       bool
@@ -452,6 +459,7 @@ type FuncContract struct {
 	RecvName   string
 	Pure       bool
 	Assumed    bool
+	FreshResult bool // the (first) result is a newly allocated object nobody else references
 	Opaque     bool // do not verify the body (e.g. outside subset) but not a dependency: listed as trusted
 	Requires   []*Clause
 	Ensures    []*Clause
@@ -477,6 +485,7 @@ type GhostFunc struct {
 	Ret     string
 	Body    *Clause // nil for uninterpreted
 	Extern  bool
+	Define  bool // stateless: emitted as an SMT define-fun instead of being inlined
 	PkgPath string
 }
 
@@ -500,8 +509,8 @@ type ContractFile struct {
 
 var clauseKeywords = map[string]bool{
 	"func": true, "pure": true, "assumed": true, "opaque": true, "requires": true, "ensures": true, "modifies": true,
-	"decreases": true, "loop": true, "split": true, "ghost": true, "spec": true, "axiom": true, "extern": true,
-	"spec-import": true, "import": true, "package": true, "captures": true,
+	"decreases": true, "loop": true, "split": true, "ghost": true, "spec": true, "def": true, "axiom": true, "extern": true,
+	"spec-import": true, "import": true, "package": true, "captures": true, "callback": true, "fresh-result": true,
 }
 
 // parseContractFile reads either a Go file with //@ lines or a raw .gvc file.
@@ -555,7 +564,7 @@ func parseContractFile(path string, pkgPath string) (*ContractFile, error) {
 		if err != nil {
 			return nil, fmt.Errorf("%s:%d: %v", path, no, err)
 		}
-		return &Clause{Text: text, Expr: e, Line: no, File: path}, nil
+		return &Clause{Text: text, Expr: e, Line: no, File: path, PkgPath: cf.PkgPath}, nil
 	}
 	for _, l := range joined {
 		kw, rest := l.text, ""
@@ -580,7 +589,7 @@ func parseContractFile(path string, pkgPath string) (*ContractFile, error) {
 			}
 		case "spec-import":
 			cf.SMTImports = append(cf.SMTImports, strings.Trim(rest, `"`))
-		case "ghost", "spec", "extern":
+		case "ghost", "spec", "extern", "def":
 			// ghost func f(a T, b U) R        | spec func f(a T) R = expr | ghost field T.f Type
 			if strings.HasPrefix(rest, "field ") {
 				parts := strings.SplitN(strings.TrimSpace(rest[6:]), " ", 2)
@@ -631,6 +640,8 @@ func parseContractFile(path string, pkgPath string) (*ContractFile, error) {
 				cur.Assumed = true
 			case "opaque":
 				cur.Opaque = true
+			case "fresh-result":
+				cur.FreshResult = true
 			case "requires", "ensures", "decreases", "captures":
 				c, err := mk(rest, l.no)
 				if err != nil {
@@ -653,6 +664,41 @@ func parseContractFile(path string, pkgPath string) (*ContractFile, error) {
 						return nil, err
 					}
 					cur.Modifies = append(cur.Modifies, c)
+				}
+			case "callback":
+				// callback <name> requires|ensures <expr>   |  callback <name> frameless
+				f := strings.SplitN(rest, " ", 3)
+				if len(f) < 2 {
+					return nil, fmt.Errorf("%s:%d: bad callback clause", path, l.no)
+				}
+				var cb *CallbackSpec
+				for _, x := range cur.Callbacks {
+					if x.Name == f[0] {
+						cb = x
+					}
+				}
+				if cb == nil {
+					cb = &CallbackSpec{Name: f[0]}
+					cur.Callbacks = append(cur.Callbacks, cb)
+				}
+				switch f[1] {
+				case "frameless":
+					cb.Frameless = true
+				case "requires", "ensures":
+					if len(f) < 3 {
+						return nil, fmt.Errorf("%s:%d: callback clause needs an expression", path, l.no)
+					}
+					c, err := mk(f[2], l.no)
+					if err != nil {
+						return nil, err
+					}
+					if f[1] == "requires" {
+						cb.Requires = append(cb.Requires, c)
+					} else {
+						cb.Ensures = append(cb.Ensures, c)
+					}
+				default:
+					return nil, fmt.Errorf("%s:%d: callback clause must be requires/ensures/frameless", path, l.no)
 				}
 			case "split":
 				f := strings.Fields(rest)
@@ -687,6 +733,12 @@ func parseContractFile(path string, pkgPath string) (*ContractFile, error) {
 						return nil, err
 					}
 					ls.Invariants = append(ls.Invariants, c)
+				case strings.HasPrefix(body, "step "):
+					c, err := mk(body[5:], l.no)
+					if err != nil {
+						return nil, err
+					}
+					ls.Steps = append(ls.Steps, c)
 				case strings.HasPrefix(body, "decreases "):
 					c, err := mk(body[10:], l.no)
 					if err != nil {
@@ -818,7 +870,8 @@ func parseGhostFunc(s, kw, path string, no int) (*GhostFunc, error) {
 		}
 	}
 	rest := strings.TrimSpace(s[j+1:])
-	if k := strings.Index(rest, "="); k >= 0 && kw == "spec" {
+	if k := strings.Index(rest, "="); k >= 0 && (kw == "spec" || kw == "def") {
+		g.Define = kw == "def"
 		g.Ret = strings.TrimSpace(rest[:k])
 		e, err := parseSpecExpr(strings.TrimSpace(rest[k+1:]))
 		if err != nil {
@@ -832,4 +885,9 @@ func parseGhostFunc(s, kw, path string, no int) (*GhostFunc, error) {
 		g.Ret = "bool"
 	}
 	return g, nil
+}
+
+func isIdentStart(s string) bool {
+	r, _ := utf8.DecodeRuneInString(s)
+	return unicode.IsLetter(r) || r == '_'
 }
